@@ -341,11 +341,17 @@ def judge_elementwise(c, x, y1):
     # impose_bounds says nothing about negative positions (its index is matched against the
     # non-negative positions found out of bounds): such an entry may be bounded or left alone
     lenient = c['fam'] == 'bounds' and kind.startswith('negative')
+    # integers(ints=True, index=...) documents two things at once: "return results as ints" and "only round at
+    # the given indices"; the int cast of the entries that are not addressed is the documented result type,
+    # so for them only "is the truncation of the input" is asked
+    intcast = c['fam'] == 'integers' and c.get('ints') == 'True'
     for i in range(n):
         a, y = x[i], y1[i]
         r = rules.get(i)
         if r is None:
-            if not same(a, y):
+            if intcast and y == float(int(a)):
+                pass
+            elif not same(a, y):
                 out.append(('selectivity', 'entry %d is not addressed but changed %r -> %r' % (i, a, y)))
         elif lenient and same(a, y):
             pass
@@ -702,7 +708,17 @@ def execute(c, x, arr, rng=None):
     y1 = _snap(y)
     if f in NO_FIXED_POINT:
         return {'y1': y1, 'e1': None, 'y2': None, 'e2': None}
-    z, e2 = _call(t, y)
+    # the second application takes the default answers and is not a choice point: when t(x) conforms it
+    # uses no draw (unique shuffles its unused candidate list regardless), and when it does not conform
+    # the first application has already been reported
+    ch = rng.ch if rng is not None else None
+    if rng is not None:
+        rng.ch = tree.Chooser()
+    try:
+        z, e2 = _call(t, y)
+    finally:
+        if rng is not None:
+            rng.ch = ch
     return {'y1': y1, 'e1': None, 'y2': None if e2 else _snap(z), 'e2': e2}
 
 
@@ -926,6 +942,11 @@ def configs(thorough):
 
 def inputs_for(c, thorough):
     kind = c.get('inputs', 'general')
+    heavy = (not thorough) and c['fam'] == 'bounds'                # quick tier: the slow family gets
+    if kind == 'general' and heavy:                                 # all vectors to length 3 + length 4 over 3 values
+        return vectors(ALPHA, 1, 3) + vectors(SMALL_ALPHA, 4, 4)
+    if kind == 'int' and heavy:
+        return vectors(INT_ALPHA, 1, 3) + vectors([0, 1, 5], 4, 4)
     if kind == 'general':
         return vectors(ALPHA, 1, 4)
     if kind == 'general3':
@@ -1111,6 +1132,7 @@ def run(ctx):
         fams[c['fam']] = fams.get(c['fam'], 0) + 1
     ctx.bounds = {
         'input_alphabet': ALPHA, 'vector_lengths': [1, 4], 'containers': ['list', 'ndarray'],
+        'quick_tier_reduction': 'impose_bounds: all vectors of length 1..3 plus length 4 over a 3-value alphabet (thorough: all of length 1..4)',
         'index': INDEXES, 'configurations_per_family': fams,
         'impose_bounds': {'one': ONE, 'two': TWO, 'dict': DICT, 'clip': [True, False], 'nearest': [True, False],
                           'uniform_answers': list(UNIT), 'choice_answers': 'every interval, per entry',
